@@ -598,6 +598,24 @@ pub fn models(tier: Tier) -> Vec<C17> {
         // a QoS 0 publish whose fixed header is longer than that of the retained packets
         C17::new("C17-arena-400-long-header-scratch", 400, &[1, 140], &[1], true, 2, false, 0),
     ];
+    // arena lengths that are odd, powers of two, one off a power of two, or smaller than a CONNECT with a will
+    const ODD: [(&str, usize); 9] = [
+        ("C17-arena-41", 41),
+        ("C17-arena-63", 63),
+        ("C17-arena-65", 65),
+        ("C17-arena-127", 127),
+        ("C17-arena-128", 128),
+        ("C17-arena-129", 129),
+        ("C17-arena-255", 255),
+        ("C17-arena-256", 256),
+        ("C17-arena-257", 257),
+    ];
+    for (k, (name, tx)) in ODD.iter().enumerate() {
+        if q && k % 4 != 1 {
+            continue;
+        }
+        v.push(C17::new(name, *tx, &[0, 7], &[1, 2, 3], true, if q { 2 } else { 3 }, false, 0));
+    }
     if !q {
         v.push(C17::new("C17-arena-40", 40, &[0, 1, 7, 20], &[1, 2, 3], true, 3, true, 0));
         v.push(C17::new("C17-arena-200-mixed", 200, &[0, 1, 7, 100], &[1, 2, 3, 4], true, 4, true, 0));
